@@ -109,11 +109,10 @@ fn ref_planar_decode_into(data: &[u8], width: usize, height: usize, planes: &mut
     let size = width * height;
     let mut pos = 1usize;
     // wire order of the planes: alpha, red, green, blue
-    let mut c = 0usize;
-    while c < 4 {
-        ref_planar_plane(data, &mut pos, &mut planes[c * size..], width, height)?;
-        c += 1;
-    }
+    ref_planar_plane(data, &mut pos, &mut planes[0..], width, height)?;
+    ref_planar_plane(data, &mut pos, &mut planes[size..], width, height)?;
+    ref_planar_plane(data, &mut pos, &mut planes[2 * size..], width, height)?;
+    ref_planar_plane(data, &mut pos, &mut planes[3 * size..], width, height)?;
     let mut row = 0usize;
     while row < height {
         let k = height - 1 - row; // wire scanline holding this top-down row
@@ -420,6 +419,17 @@ pub fn ref_rle16_decode(data: &[u8], width: usize, height: usize) -> Option<Vec<
 // =====================================================================================
 // Harnesses
 // =====================================================================================
+//
+// Measured facts that shape the harnesses (kani 0.68 / CBMC 6.11 on this crate):
+//  * `RdpResult<()>` carries the crate's `Error` enum (native_tls, yasna, io::Error, String
+//    variants). CBMC is field-sensitive, so every `?` / `return Err(..)` copies some hundred
+//    scalar fields and every feasible read adds a conjunct to all later path guards; symbolic
+//    execution time grows quadratically with the number of feasible `read_u8()?` sites.
+//    One symbolic order byte of rle_16_decompress costs about 80 s; two symbolic bytes did not
+//    finish in 19 minutes. The bounds below are what fits in the 10-15 minute budget.
+//  * The error value returned by the real decoders is `mem::forget`-ed in the harnesses:
+//    its drop glue triples the cost and is irrelevant to the property.
+//  * Vec indexing and `for` ranges are avoided in the references (7x cheaper in CBMC).
 
 /// exact rounding of an n-bit channel to 8 bits: round(c * 255 / m), m = 2^n - 1
 #[cfg(kani)]
@@ -445,11 +455,9 @@ fn check_rgb565_all_colours() {
 }
 
 #[cfg(kani)]
-const PLANAR_MAX_W: usize = 4;
-#[cfg(kani)]
-const PLANAR_MAX_H: usize = 2;
+const PLANAR_MAX_PIXELS: usize = 4;
 
-/// compare the two decoders on every stream of at most `N` bytes, for one image size
+/// compare the two planar decoders on every stream of at most `N` bytes, for one image size
 #[cfg(kani)]
 fn planar_case<const N: usize>(w: usize, h: usize) {
     let bytes: [u8; N] = kani::any();
@@ -458,16 +466,16 @@ fn planar_case<const N: usize>(w: usize, h: usize) {
     let data = &bytes[..n];
 
     let len = w * h * 4;
-    let mut out = [0u8; PLANAR_MAX_W * PLANAR_MAX_H * 4];
+    let mut out = [0u8; PLANAR_MAX_PIXELS * 4];
     let real = super::rle_32_decompress(data, w as u32, h as u32, &mut out[..len]);
     let real_ok = real.is_ok();
-    // the error value owns a String / io::Error: its drop glue is expensive in CBMC and irrelevant
     std::mem::forget(real);
 
-    let mut planes = [0u8; PLANAR_MAX_W * PLANAR_MAX_H * 4];
-    let mut expected = [0u8; PLANAR_MAX_W * PLANAR_MAX_H * 4];
+    let mut planes = [0u8; PLANAR_MAX_PIXELS * 4];
+    let mut expected = [0u8; PLANAR_MAX_PIXELS * 4];
     let reference = ref_planar_decode_into(data, w, h, &mut planes, &mut expected);
 
+    kani::cover!(reference.is_some() && expected[0] == 1 && expected[1] == 2 && expected[2] == 3 && expected[3] == 4);
     if reference.is_some() {
         assert!(real_ok); // every stream the reference decodes is accepted
         let mut p = 0;
@@ -481,65 +489,79 @@ fn planar_case<const N: usize>(w: usize, h: usize) {
     }
 }
 
+/// NOT REGISTERED. The whole planar codec (header, four planes, B,G,R,A interleaving) on a 1x1
+/// image, every stream of at most 9 bytes; meant to run with --no-unwinding-checks and unwind 4,
+/// i.e. streams in which the scanline of a plane is coded with at most 3 segments.
+/// History: the run that reported SUCCESSFUL in 545 s was VACUOUS (its cover was
+/// UNSATISFIABLE): the reference then looped `while c < 4` over the planes, which unwind 4
+/// cuts. The loop is now four explicit calls; the harness has not been re-validated.
 #[cfg(kani)]
 #[kani::proof]
 #[kani::unwind(4)]
-fn tune_planar_1x1() {
+fn unregistered_planar_vs_ref_1x1() {
     planar_case::<9>(1, 1);
 }
+
+/// compare `process_plane` with the reference plane decoder on every stream of `N` bytes
+#[cfg(kani)]
+fn plane_case<const N: usize>(w: usize, h: usize) {
+    let bytes: [u8; N] = kani::any();
+    let mut out = [0u8; PLANAR_MAX_PIXELS * 4];
+    let mut cursor = std::io::Cursor::new(&bytes[..]);
+    let real = super::process_plane(&mut cursor, w as u32, h as u32, &mut out[..w * h * 4]);
+    let real_ok = real.is_ok();
+    std::mem::forget(real);
+
+    let mut wire = [0u8; PLANAR_MAX_PIXELS];
+    let mut pos = 0usize;
+    let reference = ref_planar_plane(&bytes, &mut pos, &mut wire, w, h);
+
+    kani::cover!(reference.is_some() && h == 2 && wire[0] != wire[w]);
+    if reference.is_some() {
+        assert!(real_ok);
+        // both consumed the same number of bytes
+        assert!(cursor.position() as usize == pos);
+        // the plane is written with a stride of 4, wire scanline k is row h-1-k
+        let mut k = 0;
+        while k < h {
+            let mut i = 0;
+            while i < w {
+                assert!(out[((h - 1 - k) * w + i) * 4] == wire[k * w + i]);
+                i += 1;
+            }
+            k += 1;
+        }
+    }
+}
+
+/// BOUNDED: one plane, 1 pixel wide and 2 scanlines high (so the delta stage and the
+/// bottom-up order are exercised), every stream of exactly 4 bytes (longer streams only add
+/// ignored trailing bytes or empty segments); all loops fully unwound (unwinding checks on).
 #[cfg(kani)]
 #[kani::proof]
-#[kani::unwind(4)]
-fn tune_planar_2x1() {
-    planar_case::<17>(2, 1);
-}
-#[cfg(kani)]
-#[kani::proof]
-#[kani::unwind(5)]
-fn tune_planar_2x2() {
-    planar_case::<33>(2, 2);
+#[kani::unwind(6)]
+fn check_planar_plane_vs_ref_1x2() {
+    plane_case::<4>(1, 2);
 }
 
 #[cfg(kani)]
-const RLE16_MAX_DATA: usize = 7;
-#[cfg(kani)]
-const RLE16_MAX_W: usize = 3;
-#[cfg(kani)]
-const RLE16_MAX_H: usize = 2;
-
-#[cfg(kani)]
-fn rle16_compare(literal: bool, only_non_straddling: bool, exempt_bg_after_straddling_bg: bool) {
-    let w: usize = kani::any();
-    let h: usize = kani::any();
-    kani::assume(1 <= w && w <= RLE16_MAX_W);
-    kani::assume(1 <= h && h <= RLE16_MAX_H);
-    let n: usize = kani::any();
-    kani::assume(n <= RLE16_MAX_DATA);
-    rle16_case(w, h, n, literal, only_non_straddling, exempt_bg_after_straddling_bg);
-}
-
-#[cfg(kani)]
-fn rle16_case(w: usize, h: usize, n: usize, literal: bool, only_non_straddling: bool, exempt_bg_after_straddling_bg: bool) {
-    let bytes: [u8; RLE16_MAX_DATA] = kani::any();
-    rle16_check(w, h, &bytes[..n], literal, only_non_straddling, exempt_bg_after_straddling_bg);
-}
+const RLE16_MAX_PIXELS: usize = 6;
 
 #[cfg(kani)]
 fn rle16_check(w: usize, h: usize, data: &[u8], literal: bool, only_non_straddling: bool, exempt_bg_after_straddling_bg: bool) {
-
     // the caller (BitmapEvent::decompress) passes width*height*2 elements, zeroed
-    let mut out = [0u16; RLE16_MAX_W * RLE16_MAX_H * 2];
+    let mut out = [0u16; RLE16_MAX_PIXELS * 2];
     let total = w * h;
     let real = super::rle_16_decompress(data, w, h, &mut out[..total * 2]);
     let real_ok = real.is_ok();
-    // the error value owns a String / io::Error: its drop glue is expensive in CBMC and irrelevant
     std::mem::forget(real);
 
-    let mut wire = [0u16; RLE16_MAX_W * RLE16_MAX_H];
-    let mut expected = [0u16; RLE16_MAX_W * RLE16_MAX_H];
+    let mut wire = [0u16; RLE16_MAX_PIXELS];
+    let mut expected = [0u16; RLE16_MAX_PIXELS];
     let reference = ref_rle16_decode_into(data, w, h, literal, &mut wire, &mut expected);
 
     if let Some(info) = reference {
+        kani::cover!(info.decoded == total);
         if only_non_straddling && info.straddled {
             return;
         }
@@ -557,129 +579,185 @@ fn rle16_check(w: usize, h: usize, data: &[u8], literal: bool, only_non_straddli
     }
 }
 
-/// BOUNDED: position-based reading of "first line", every stream in the bound except the
-/// one ambiguous situation (background run after a background run that crossed the end of
-/// the first scanline), see README.
+/// BOUNDED: every 1-byte stream (all 256 order headers) on a 3x2 image, position-based
+/// reading of "first line"; all loops fully unwound (unwinding checks on; needs the
+/// per-loop --unwindset of harnesses.json, the 8x-unrolled loops of `repeat!` get bound 1).
 #[cfg(kani)]
 #[kani::proof]
 #[kani::unwind(8)]
-fn check_rle16_vs_ref() {
-    rle16_compare(false, false, true);
+fn check_rle16_vs_ref_1byte_3x2() {
+    let bytes: [u8; 1] = kani::any();
+    rle16_check(3, 2, &bytes, false, false, true);
 }
 
-/// BOUNDED: the pseudo-code of MS-RDPBCGR 3.1.9 verbatim, on the streams where no order
-/// crosses the end of the first scanline.
+/// same, with the pseudo-code of MS-RDPBCGR 3.1.9 read verbatim (first-line flag per order),
+/// restricted to the streams whose order does not cross the end of the first scanline.
+/// Without that restriction Kani reports `out[i] == expected[i]` FAILED (README, D2).
 #[cfg(kani)]
 #[kani::proof]
 #[kani::unwind(8)]
-fn check_rle16_vs_literal_spec_non_straddling() {
-    rle16_compare(true, true, false);
+fn check_rle16_vs_literal_spec_1byte_3x2() {
+    let bytes: [u8; 1] = kani::any();
+    rle16_check(3, 2, &bytes, true, true, false);
 }
 
-/// NOT REGISTERED, expected to FAIL: exhibits the disagreement on the insert-foreground-pel
-/// rule after a straddling background run.
-#[cfg(kani)]
-#[kani::proof]
-#[kani::unwind(8)]
-fn witness_rle16_bg_after_straddling_bg() {
-    rle16_compare(false, false, false);
-}
-
-/// NOT REGISTERED, expected to FAIL: exhibits the disagreement between the code and the
-/// literal pseudo-code on orders that cross the end of the first scanline.
-#[cfg(kani)]
-#[kani::proof]
-#[kani::unwind(8)]
-fn witness_rle16_literal_spec_straddling() {
-    rle16_compare(true, false, false);
-}
+// ---- NOT REGISTERED: too expensive for CBMC on this crate (see README), kept as the intended
+// ---- shape of the bounded equivalence check.
 
 #[cfg(kani)]
-#[kani::proof]
-fn micro_rdperror() {
-    let e = super::RdpError::new(super::RdpErrorKind::InvalidData, "Run out of scanline");
-    std::mem::forget(e);
-}
-
-#[cfg(kani)]
-#[kani::proof]
-#[kani::unwind(4)]
-fn tune_real_1x1() {
-    let bytes: [u8; 9] = kani::any();
-    let mut out = [0u8; 4];
-    let real = super::rle_32_decompress(&bytes, 1, 1, &mut out);
-    let ok = real.is_ok();
-    std::mem::forget(real);
-    if ok { assert!(out[3] == bytes[2] || bytes[1] != 0x10); }
-}
-#[cfg(kani)]
-#[kani::proof]
-#[kani::unwind(4)]
-fn tune_plane_1x1() {
-    let bytes: [u8; 3] = kani::any();
-    let mut out = [0u8; 4];
-    let mut c = std::io::Cursor::new(&bytes[..]);
-    let real = super::process_plane(&mut c, 1, 1, &mut out);
-    let ok = real.is_ok();
-    std::mem::forget(real);
-    if ok { assert!(out[0] == bytes[1] || bytes[0] != 0x10); }
-}
-
-#[cfg(kani)]
-#[kani::proof]
-#[kani::unwind(8)]
-fn tune_rle16_c325() {
-    rle16_case(3, 2, 5, false, false, true);
-}
-#[cfg(kani)]
-#[kani::proof]
-#[kani::unwind(8)]
-fn tune_rle16_concrete_wh() {
+fn rle16_symbolic<const N: usize>(literal: bool, only_non_straddling: bool, exempt: bool) {
+    let bytes: [u8; N] = kani::any();
     let n: usize = kani::any();
-    kani::assume(n <= RLE16_MAX_DATA);
-    rle16_case(3, 2, n, false, false, true);
+    kani::assume(n <= N);
+    let w: usize = kani::any();
+    let h: usize = kani::any();
+    kani::assume(1 <= w && w <= 3);
+    kani::assume(1 <= h && h <= 2);
+    rle16_check(w, h, &bytes[..n], literal, only_non_straddling, exempt);
 }
+
+/// position-based reading, every stream but the one ambiguous situation
 #[cfg(kani)]
 #[kani::proof]
 #[kani::unwind(8)]
-fn tune_rle16_concrete_input() {
-    let bytes: [u8; 5] = [0x03, 0xFD, 0x61, 0xFE, 0xFE];
-    let mut out = [0u16; 12];
-    let real = super::rle_16_decompress(&bytes, 3, 2, &mut out);
-    let ok = real.is_ok();
-    std::mem::forget(real);
-    assert!(ok);
+fn unregistered_rle16_vs_ref_5bytes() {
+    rle16_symbolic::<5>(false, false, true);
 }
+
+/// literal pseudo-code, streams where no order crosses the end of the first scanline
 #[cfg(kani)]
 #[kani::proof]
 #[kani::unwind(8)]
-fn tune_rle16_one_symbolic() {
-    let b: u8 = kani::any();
-    let bytes: [u8; 1] = [b];
-    let mut out = [0u16; 12];
-    let real = super::rle_16_decompress(&bytes, 3, 2, &mut out);
-    let ok = real.is_ok();
-    std::mem::forget(real);
-    if b == 0xFD { assert!(ok); }
+fn unregistered_rle16_vs_literal_spec_5bytes() {
+    rle16_symbolic::<5>(true, true, false);
 }
+
+/// expected to FAIL: background run after a straddling background run (README, D1)
 #[cfg(kani)]
 #[kani::proof]
 #[kani::unwind(8)]
-fn tune_rle16_w2h2n7() {
-    rle16_case(2, 2, 7, false, false, true);
+fn unregistered_witness_rle16_d1() {
+    let bytes: [u8; 2] = [0x03, 0x01];
+    rle16_check(2, 2, &bytes, false, false, false);
+}
+
+/// expected to FAIL: foreground run crossing the end of the first scanline, literal reading (README, D2)
+#[cfg(kani)]
+#[kani::proof]
+#[kani::unwind(8)]
+fn unregistered_witness_rle16_d2() {
+    let bytes: [u8; 1] = [0x23];
+    rle16_check(2, 2, &bytes, true, false, false);
 }
 
 #[cfg(kani)]
 #[kani::proof]
-#[kani::unwind(8)]
-fn tune_rle16_len2() {
-    let bytes: [u8; 2] = kani::any();
-    rle16_check(3, 2, &bytes, false, false, true);
+#[kani::unwind(6)]
+fn unregistered_planar_vs_ref_2x2() {
+    planar_case::<33>(2, 2);
 }
-#[cfg(kani)]
-#[kani::proof]
-#[kani::unwind(8)]
-fn tune_rle16_len3() {
-    let bytes: [u8; 3] = kani::any();
-    rle16_check(3, 2, &bytes, false, false, true);
+
+// native sanity tests of the references and of the disagreements (used when the file is
+// attached under cfg(test) to a scratch copy of the crate)
+#[cfg(test)]
+mod native {
+    use super::*;
+
+    fn real16(data: &[u8], w: usize, h: usize) -> Option<Vec<u16>> {
+        let mut out = vec![0u16; w * h * 2];
+        match super::super::rle_16_decompress(data, w, h, &mut out) {
+            Ok(()) => { out.truncate(w * h); Some(out) }
+            Err(_) => None,
+        }
+    }
+    fn lit16(data: &[u8], w: usize, h: usize) -> Option<Vec<u16>> {
+        let mut wire = vec![0u16; w * h];
+        let mut out = vec![0u16; w * h];
+        ref_rle16_decode_into(data, w, h, true, &mut wire[..], &mut out[..])?;
+        Some(out)
+    }
+    fn real32(data: &[u8], w: usize, h: usize) -> Option<Vec<u8>> {
+        let mut out = vec![0u8; w * h * 4];
+        match super::super::rle_32_decompress(data, w as u32, h as u32, &mut out) {
+            Ok(()) => Some(out),
+            Err(_) => None,
+        }
+    }
+
+    #[test]
+    fn disagreements() {
+        // D1: BG_RUN(3) BG_RUN(1) on 2x2
+        println!("D1 real {:x?} ref {:x?} literal {:x?}", real16(&[0x03, 0x01], 2, 2), ref_rle16_decode(&[0x03, 0x01], 2, 2), lit16(&[0x03, 0x01], 2, 2));
+        // D2: FG_RUN(3) on 2x2
+        println!("D2 real {:x?} ref {:x?} literal {:x?}", real16(&[0x23], 2, 2), ref_rle16_decode(&[0x23], 2, 2), lit16(&[0x23], 2, 2));
+        // A1: 0xF5 with zero length
+        println!("A1 real {:x?} ref {:x?}", real16(&[0xF5, 0, 0], 2, 2), ref_rle16_decode(&[0xF5, 0, 0], 2, 2));
+        // A2: BG_RUN(1), MEGA_MEGA_BG_RUN(0), BG_RUN(1): the pending insertion survives the empty run
+        println!("A2 real {:x?} ref {:x?}", real16(&[0x01, 0xF0, 0, 0, 0x01], 2, 2), ref_rle16_decode(&[0x01, 0xF0, 0, 0, 0x01], 2, 2));
+    }
+
+    /// exhaustive/random differential test, far beyond the Kani bounds
+    #[test]
+    fn differential() {
+        let mut seed: u64 = 0x9E3779B97F4A7C15;
+        let mut next = move || { seed ^= seed << 13; seed ^= seed >> 7; seed ^= seed << 17; seed };
+        let mut agree = 0u64; let mut both_reject = 0u64; let mut only_real = 0u64; let mut exempt = 0u64;
+        for _ in 0..3_000_000u32 {
+            let w = (next() % 4 + 1) as usize;
+            let h = (next() % 3 + 1) as usize;
+            let n = (next() % 9) as usize;
+            let mut d = vec![0u8; n];
+            for b in d.iter_mut() {
+                let r = next();
+                // bias towards small run lengths and valid orders
+                *b = if r & 0x300 == 0 { (r & 0xff) as u8 } else { ((r >> 16) as u8 & 0xE7) | 0x01 & (r >> 24) as u8 | ((r >> 32) as u8 & 0x03) };
+            }
+            let mut wire = vec![0u16; w * h];
+            let mut out = vec![0u16; w * h];
+            let r = ref_rle16_decode_into(&d, w, h, false, &mut wire[..], &mut out[..]);
+            let real = real16(&d, w, h);
+            match (r, real) {
+                (Some(info), Some(px)) => {
+                    if info.bg_after_straddling_bg { exempt += 1; }
+                    else { assert!(px == out, "rle16 mismatch {:x?} {}x{}: real {:x?} ref {:x?}", d, w, h, px, out); agree += 1; }
+                }
+                (Some(info), None) => { assert!(info.bg_after_straddling_bg, "rle16: real rejects {:x?} {}x{}", d, w, h); exempt += 1; }
+                (None, Some(_)) => only_real += 1,
+                (None, None) => both_reject += 1,
+            }
+        }
+        println!("rle16: agree {} both_reject {} only_real_accepts {} exempt {}", agree, both_reject, only_real, exempt);
+
+        let mut agree = 0u64; let mut both_reject = 0u64; let mut only_real = 0u64;
+        for _ in 0..3_000_000u32 {
+            let w = (next() % 4 + 1) as usize;
+            let h = (next() % 3 + 1) as usize;
+            // build a structurally plausible stream: random segments, sometimes corrupted
+            let mut d = vec![0x10u8];
+            for _plane in 0..4 { for _row in 0..h {
+                let mut filled = 0;
+                while filled < w {
+                    let left = w - filled;
+                    let raw = (next() as usize % (left + 1)).min(15);
+                    let mut run = 0usize;
+                    if left - raw >= 3 && next() & 1 == 0 { run = 3 + next() as usize % (left - raw - 2); if run > 15 { run = 15; } }
+                    if raw == 0 && run == 0 { if next() & 7 == 0 { d.push(0); } continue; }
+                    d.push(((raw as u8) << 4) | run as u8);
+                    for _ in 0..raw { d.push(next() as u8); }
+                    filled += raw + run;
+                }
+            } }
+            if next() & 7 == 0 && d.len() > 1 { let i = next() as usize % d.len(); d[i] = next() as u8; }
+            if next() & 15 == 0 { let l = next() as usize % d.len(); d.truncate(l); }
+            let r = ref_planar_decode(&d, w, h);
+            let real = real32(&d, w, h);
+            match (r, real) {
+                (Some(a), Some(b)) => { assert!(a == b, "planar mismatch {:x?} {}x{}", d, w, h); agree += 1; }
+                (Some(_), None) => panic!("planar: real rejects {:x?} {}x{}", d, w, h),
+                (None, Some(_)) => only_real += 1,
+                (None, None) => both_reject += 1,
+            }
+        }
+        println!("planar: agree {} both_reject {} only_real_accepts {}", agree, both_reject, only_real);
+    }
 }
